@@ -603,6 +603,17 @@ impl Parser<'_, '_> {
                 | Token::IpV6(_)
                 | Token::Asn(_)
                 | Token::String(_)
+                | Token::Char(_)
+                | Token::Hex(_)
+                | Token::FStringStart
+                | Token::Keyword(
+                    Keyword::If
+                        | Keyword::Match
+                        | Keyword::Super
+                        | Keyword::Pkg
+                        | Keyword::Dep
+                        | Keyword::Std
+                )
         )
     }
 
